@@ -395,6 +395,10 @@ __get_dir(struct dt_dt_s d, const struct dseq_clo_s *clo)
 		struct dt_dt_s tmp = __seq_next(d, clo);
 		return dt_dtcmp(tmp, d);
 	}
+	/* times are moved by time units only, and dv is theirs */
+	if (clo->ite->durtyp < (dt_dtdurtyp_t)DT_NDURTYP) {
+		return 0;
+	}
 	if (clo->ite->dv > 0) {
 		return 1;
 	} else if (clo->ite->dv < 0) {
